@@ -147,6 +147,7 @@ type Pool interface {
 	AllocsCycle(runs int) float64
 	AllocsCycleByValue(runs int) float64
 	AllocsCyclePair(runs int) float64
+	AllocsCycleMany(runs int) float64
 }
 
 type bufW[T signal.SignalTypes] struct {
